@@ -58,7 +58,8 @@ type childConf struct {
 	ReplayNS   string           `json:"replay_ns,omitempty"`
 	Avoid      []string         `json:"avoid,omitempty"`       // command names left out (they killed an earlier child)
 	AvoidKinds []string         `json:"avoid_kinds,omitempty"` // mutation kinds left out
-	HoldS      int              `json:"hold_s,omitempty"`      // replay: keep the server running that long before the final canaries (periodic loops: metrics every 10 s)
+	Dict       Dictionary       `json:"dict"`
+	HoldS      int              `json:"hold_s,omitempty"` // replay: keep the server running that long before the final canaries (periodic loops: metrics every 10 s)
 	BadIndex   int              `json:"bad_index,omitempty"`
 }
 
@@ -663,6 +664,18 @@ func (s *childState) fuzzClient(h *Host, ci int, names []string, canary *canaryP
 	r := newRand(conf.Seed, int64(conf.Index*1000+ci))
 	g := NewGen(r, []string{"fz", "fz", "one"})
 	g.AvoidKinds = s.avoidKinds()
+	g.Dict = append(append([]string(nil), conf.Dict.Strict...), conf.Dict.Loose...)
+	// systematic phase first (the same list in every client, each takes its share)
+	pg := NewGen(newRand(conf.Seed, int64(conf.Index*1000+900)), []string{"fz", "one"})
+	pg.AvoidKinds = s.avoidKinds()
+	pre := pg.PrePhase(conf.Names, conf.Dict.Strict, s.avoided)
+	var mine []GenCmd
+	for i, c := range pre {
+		if i%maxInt(1, conf.Clients) == ci {
+			mine = append(mine, c)
+		}
+	}
+	s.count("systematic_commands", int64(len(mine)))
 	lg, err := newCmdLogger(conf.Dir, ci)
 	if err != nil {
 		s.inconclusive(err.Error())
@@ -685,9 +698,11 @@ func (s *childState) fuzzClient(h *Host, ci int, names []string, canary *canaryP
 		return
 	}
 	defer func() { conn.Close() }()
-	for i := 0; i < conf.PerConn; i++ {
+	for i := -len(mine); i < conf.PerConn; i++ {
 		var c GenCmd
-		if r.Intn(100) < 30 {
+		if i < 0 {
+			c = mine[len(mine)+i]
+		} else if r.Intn(100) < 30 {
 			c, _, _ = g.Valid(stateBuilders[r.Intn(len(stateBuilders))])
 		} else {
 			c, _ = g.Hostile(names[r.Intn(len(names))])
@@ -750,10 +765,10 @@ func (s *childState) fuzzClient(h *Host, ci int, names []string, canary *canaryP
 				}
 			}
 		}
-		if ci == 0 && i < 5 {
+		if ci == 0 && i >= 0 && i < 5 {
 			s.sample(5, map[string]interface{}{"cmd": HumanArgv(c.Args), "kind": c.Kind, "reply": cut(renderReplies(rs), 120)})
 		}
-		if (i+1)%200 == 0 && atomic.LoadInt32(&stalled) == 0 {
+		if i >= 0 && (i+1)%200 == 0 && atomic.LoadInt32(&stalled) == 0 {
 			if !canary.probe(fmt.Sprintf("client %d after %d commands", ci, i+1)) {
 				s.noteStall(s.start)
 				s.waitUnstall(canary, s.start, stallWatchdog)
